@@ -1072,7 +1072,8 @@ class Parser:
         """Parse a string."""
         import io
 
-        tok_stream = generate_tokens(io.StringIO(source).readline)
+        # newline=None: '\r\n' and a lone '\r' end a line, as they do for parse_file and for CPython
+        tok_stream = generate_tokens(io.StringIO(source, newline=None).readline)
         tokenizer = Tokenizer(tok_stream, verbose=verbose)
         parser = cls(tokenizer, verbose=verbose, py_version=py_version)
         return parser.parse(mode if mode == "eval" else "file")
